@@ -4,6 +4,8 @@
 From Coq Require Import ExtrOcamlBasic.
 From Rsbdd Require Import Core.Bdd Core.Ops Check.Prog Check.Checkers.
 From Rsbdd Require Import Env.Heap Io.DotBdd Io.DotTree.
+From Rsbdd Require Import Lang.FSem Lang.FixLang.
+From Rsbdd Require Import Gen.Queens Gen.Sudoku Gen.Forms Gen.Clique Gen.CliqueComp Gen.Graph Gen.Colors Gen.GenCheck Gen.Prefix.
 From Rsbdd Require Import Lang.Ast Lang.Eval Syntax.Token Syntax.Lexer Syntax.Tokenize Syntax.Parser Cli.Table Cli.TableFilter Cli.Pipeline.
 Extraction Language OCaml.
 Extraction "model.ml"
@@ -14,4 +16,5 @@ Extraction "model.ml"
   verdict_fun verdict_model verdict_retain verdict_infer find_diff
   lex_raw tokenize parse eval_f parsed_formula parsed_of_tokens ident_names name_table name_of ordering_of_file cli
   set_run set_ref h_new h_mk_choice h_mk_const
-  dot_nodes dot_edges subterms label out_edges rebuild.
+  dot_nodes dot_edges subterms label out_edges rebuild
+  queens_form sudoku_form hints_of_text ascii_ws form_all form_max comp_dir comp_undir valid_output feasible read_graph aug copy_prefix fsem all_vars var_is_free.
